@@ -1996,6 +1996,10 @@ static void SwitchFrom_78K3(void) {
     DeinitFields();
 }
 
+static void InitCode_78K3(void) {
+    Reg_RSS = 0;
+}
+
 static void SwitchTo_78K3(void) {
     static ASSUMERec const ASSUME78K3s[] = {
             {"RSS", &Reg_RSS, 0, 0x1, 0x0, NULL},
@@ -2032,4 +2036,6 @@ static void SwitchTo_78K3(void) {
 
 void code78k3_init(void) {
     CPU78310 = AddCPU("78310", SwitchTo_78K3);
+
+    AddInitPassProc(InitCode_78K3);
 }
